@@ -56,7 +56,7 @@ def _h(*parts):
 # ------------------------------------------------------------------------------------------
 # inputs
 # ------------------------------------------------------------------------------------------
-def sym_array(B, name, shape, fill):
+def sym_array(B, name, shape, fill, salt=0):
     """ndarray of elements: every entry a complex symbol (fill == "full"), or `fill` seeded positions
     symbolic and the rest concrete Gaussian rationals"""
     a = np.empty(shape, dtype=B.np_dtype)
@@ -64,12 +64,12 @@ def sym_array(B, name, shape, fill):
     if fill == "full":
         symbolic = set(idxs)
     else:
-        symbolic = set(sorted(idxs, key=lambda i: _h(name, i))[: int(fill)])
+        symbolic = set(sorted(idxs, key=lambda i: _h(name, i, salt))[: int(fill)])
     for idx in idxs:
         if idx in symbolic:
             a[idx] = B.cplx(f"{name}{list(idx)}".replace(" ", ""))
         else:
-            a[idx] = complex(CONSTS[_h("c", name, idx) % len(CONSTS)])
+            a[idx] = complex(CONSTS[_h("c", name, idx, salt) % len(CONSTS)])
     return a
 
 
@@ -77,13 +77,13 @@ def to_tensor(B, a):
     return B.tensor(a.tolist(), "complex128")
 
 
-def train(B, name, bonds, d, rank, fill):
+def train(B, name, bonds, d, rank, fill, salt=0):
     """bonds: the N-1 inner bond dimensions -> (list of element arrays, list of tensors)"""
     full = [1] + list(bonds) + [1]
     arrs = []
     for k in range(len(full) - 1):
         shape = (full[k], d, full[k + 1]) if rank == 3 else (full[k], d, d, full[k + 1])
-        arrs.append(sym_array(B, f"{name}{k}", shape, fill))
+        arrs.append(sym_array(B, f"{name}{k}", shape, fill, salt))
     return arrs, [to_tensor(B, a) for a in arrs]
 
 
@@ -230,8 +230,8 @@ def mps(B, case):
     N, d, fill = case["N"], case["d"], case["fill"]
     basis = BASES[case["basis"]]
     oc = case["oc"]
-    A, tA = train(B, "a", case["ba"], d, 3, fill)
-    Bm, tB = train(B, "b", case["bb"], d, 3, case.get("fill_b", fill))
+    A, tA = train(B, "a", case["ba"], d, 3, fill, case.get("salt", 0))
+    Bm, tB = train(B, "b", case["bb"], d, 3, case.get("fill_b", fill), case.get("salt", 0))
     z = B.cplx("z")
     w = B.cplx("w")
     op = sym_array(B, "op", (d, d), "full")
@@ -253,7 +253,7 @@ def mps(B, case):
         which = case.get("which", 0)
         sf = scale_factors(la, z, which=which)
         got["sf"] = snap(B, sf)
-        got["sf_new_list"] = int(sf is not la and all((x is y) == (k != which) for k, (x, y) in enumerate(zip(sf, la))))
+        got["sf_new_list"] = int(sf is not la and len(sf) == N and sf[which] is not la[which])
         r = z * a
         got["rmul"] = snap(B, r.factors)
         got["rmul_meta"] = [int(r is not a), int(r.factors is not a.factors), int(r.orthogonality_center == oc),
@@ -300,35 +300,29 @@ def mps(B, case):
 def mpo(B, case):
     N, d, fill = case["N"], case["d"], case["fill"]
     basis = BASES[case["basis"]]
-    A, tA = train(B, "a", case["ba"], d, 4, fill)
-    Bm, tB = train(B, "b", case["bb"], d, 4, fill)
-    P, tP = train(B, "p", case["bp"], d, 3, case.get("fill_p", fill))
+    A, tA = train(B, "a", case["ba"], d, 4, fill, case.get("salt", 0))
+    P, tP = train(B, "p", case["bp"], d, 3, case.get("fill_p", fill), case.get("salt", 0))
     z = B.cplx("z")
     got = {}
     with B.under_test():
         from emu_mps.mps import MPS
         from emu_mps.mpo import MPO
-        oa, ob = MPO(list(tA)), MPO(list(tB))
+        oa = MPO(list(tA))
         psi = MPS(list(tP), eigenstates=basis)
         got["expect"] = oa.expect(psi)
-        s = oa + ob
-        got["add"] = snap(B, s.factors)
         r = z * oa
         got["rmul"] = snap(B, r.factors)
-        got["meta"] = [int(type(s) is MPO), int(type(r) is MPO), int(r.factors is not oa.factors), int(s.factors is not oa.factors)]
-        got["after"] = snap(B, oa.factors) + snap(B, ob.factors) + snap(B, psi.factors)
-        for f in s.factors:
-            f.zero_()
-        r.factors[0].zero_()
-        got["after2"] = snap(B, oa.factors) + snap(B, ob.factors)
-    dA, dB, p = dense_mpo(B, A), dense_mpo(B, Bm), dense_mps(B, P)
+        got["meta"] = [int(type(r) is MPO), int(r is not oa), int(r.factors is not oa.factors), int(r.factors[0] is not oa.factors[0])]
+        got["after"] = snap(B, oa.factors) + snap(B, psi.factors)
+        r.factors[0].zero_()                       # `scalar * f` is a fresh tensor
+        got["after2"] = snap(B, oa.factors)
+    dA, p = dense_mpo(B, A), dense_mps(B, P)
     ex = vdot(B, p, matvec(B, dA, p))
     return [("MPO.expect", got_scalar(B, got["expect"]), scalar(B, ex)),
-            ("MPO.__add__", dense_mpo(B, got["add"]), dA + dB),
             ("MPO.__rmul__", dense_mpo(B, got["rmul"]), z * dA),
-            ("MPO.__add__ / __rmul__: result types, new lists", ints(B, got["meta"]), ints(B, [1] * 4)),
-            ("operands unchanged after expect / + / scalar *", flat(B, got["after"]), flat(B, A + Bm + P)),
-            ("operands unchanged after zero_() on the fresh result factors", flat(B, got["after2"]), flat(B, A + Bm))]
+            ("MPO.__rmul__: MPO, new object, new list, new first factor", ints(B, got["meta"]), ints(B, [1] * 4)),
+            ("operands unchanged after expect / scalar *", flat(B, got["after"]), flat(B, A + P)),
+            ("operand unchanged after zero_() on the scaled factor of the result", flat(B, got["after2"]), flat(B, A))]
 
 
 def op_names(basis):
@@ -464,3 +458,280 @@ def norm(B, case):
 
 
 KINDS = {"add": add, "mps": mps, "mpo": mpo, "oprepr": oprepr, "make": make, "norm": norm}
+
+
+# ------------------------------------------------------------------------------------------
+# case plan
+# ------------------------------------------------------------------------------------------
+DIM_BASES = {2: ["rg", "01", "gr"], 3: ["grx", "rgx"]}
+
+
+def profiles(N, maxb):
+    return [list(p) for p in itertools.product(range(1, maxb + 1), repeat=N - 1)]
+
+
+def _prod(xs):
+    r = 1
+    for x in xs:
+        r *= x
+    return r
+
+
+def _basis(d, k):
+    return DIM_BASES[d][k % len(DIM_BASES[d])]
+
+
+def _add_cases(tier, control):
+    out = []
+
+    def one(N, d, rank, ba, bb, **kw):
+        out.append(dict(kind="add", N=N, d=d, rank=rank, fill="full", ba=list(ba), bb=list(bb),
+                        _w=(_prod(ba) + _prod(bb)) * (d ** (N * (rank - 2))) * 2 ** N, **kw))
+    if control:
+        for rank in (3, 4):
+            one(2, 2, rank, [2], [1])
+            one(3, 2, rank, [2, 2], [1, 3])
+            one(3, 2, rank, [1, 2], [2, 1])
+        one(3, 2, 3, [1, 1], [2, 1], repeat=True)
+        return out
+    thorough = tier == "thorough"
+    for d in (2, 3):
+        for rank in (3, 4):
+            for N in (2, 3):
+                ps = profiles(N, 3)
+                for i, ba in enumerate(ps):
+                    for j, bb in enumerate(ps):
+                        if rank == 4 and d == 3 and N == 3 and not thorough and (i + j) % 9:
+                            continue
+                        one(N, d, rank, ba, bb)
+            ps = profiles(4, 3)
+            for i, ba in enumerate(ps):
+                for j, bb in enumerate(ps):
+                    if rank == 4 and d == 3:
+                        # 81 x 81 matrices of degree-4 polynomials: two small profiles only (thorough)
+                        if not (thorough and max(ba) <= 2 and max(bb) <= 2 and (i + j) % 13 == 0):
+                            continue
+                    elif rank == 4:
+                        if (i - j) % 27 not in ((0, 5, 11) if thorough else (5,)):
+                            continue
+                    elif not thorough and (i - j) % 27 not in (0, 7):
+                        continue
+                    one(4, d, rank, ba, bb)
+            if rank == 3:
+                ps = profiles(5, 3)
+                for i, ba in enumerate(ps):
+                    if thorough or i % 5 == 0:
+                        one(5, d, 3, ba, ps[(7 * i + 3) % len(ps)])
+        for N in (2, 3, 4):
+            for rank in (3, 4):
+                if rank == 4 and d == 3 and N == 4:
+                    continue
+                for bb in profiles(N, 2):
+                    one(N, d, rank, [1] * (N - 1), bb, repeat=True)
+    return out
+
+
+def _mps_cases(tier, control, seed):
+    out = []
+    OC = [None, 0, 1, 2, 3, 4]
+
+    def one(N, d, ba, bb, oc, k, fill="full", fill_b=None, **kw):
+        c = dict(kind="mps", N=N, d=d, basis=_basis(d, k), fill=fill, ba=list(ba), bb=list(bb), oc=oc, which=k % N, **kw)
+        if fill_b is not None:
+            c["fill_b"] = fill_b
+        full_a, full_b = fill == "full", (fill if fill_b is None else fill_b) == "full"
+        ip_terms = ((_prod(ba) * 2 ** N) if full_a else 3 ** N) * ((_prod(bb) * 2 ** N) if full_b else 3 ** N) * \
+            (d ** N if (full_a and full_b) else 1)
+        if full_a and full_b and ip_terms <= 600:
+            c["overlap"] = True
+        if fill != "full" or fill_b not in (None, "full"):
+            c["salt"] = seed
+        c["_w"] = ip_terms
+        out.append(c)
+    if control:
+        for oc in (None, 0, 1):
+            one(2, 2, [2], [2], oc, 0)
+        one(3, 2, [2, 2], [1, 2], 1, 1)
+        one(3, 2, [1, 2], [2, 1], 2, 2)
+        one(2, 3, [1], [2], 1, 0)
+        return out
+    thorough = tier == "thorough"
+    k = 0
+    for d in (2, 3):
+        for ba in profiles(2, 3):
+            for bb in profiles(2, 3):
+                for oc in (None, 0, 1):
+                    k += 1
+                    one(2, d, ba, bb, oc, k)
+        ps = profiles(3, 3)
+        for ba in ps:
+            for bb in ps:
+                k += 1
+                oc = OC[k % 4]
+                if d == 2 or thorough or max(ba + bb) <= 2:
+                    one(3, d, ba, bb, oc, k)
+                else:
+                    one(3, d, ba, bb, oc, k, fill_b=3)
+        ps = profiles(4, 3)
+        for i, ba in enumerate(ps):
+            k += 1
+            one(4, d, ba, ps[(5 * i + 2) % len(ps)], OC[k % 5], k, fill=2)
+            if thorough:
+                one(4, d, ba, ps[(11 * i + 7) % len(ps)], OC[(k + 2) % 5], k + 1, fill=1, fill_b=3)
+        for i, ba in enumerate(profiles(4, 2)):
+            k += 1
+            one(4, d, ba, [1, 1, 1], OC[k % 5], k)
+            if thorough and d == 2:
+                for bb in profiles(4, 2):
+                    k += 1
+                    one(4, d, ba, bb, OC[k % 5], k)
+        ps = profiles(5, 3)
+        for i, ba in enumerate(ps):
+            if thorough or i % 6 == 0:
+                k += 1
+                one(5, d, ba, ps[(13 * i + 4) % len(ps)], OC[k % 6], k, fill=2)
+    return out
+
+
+def _mpo_cases(tier, control, seed):
+    out = []
+
+    def one(N, d, ba, bp, k, fill="full", fill_p=None, w=1):
+        c = dict(kind="mpo", N=N, d=d, basis=_basis(d, k), fill=fill, ba=list(ba), bp=list(bp), _w=w)
+        if fill_p is not None:
+            c["fill_p"] = fill_p
+        if fill != "full" or fill_p not in (None, "full"):
+            c["salt"] = seed
+        out.append(c)
+    if control:
+        one(2, 2, [2], [2], 0)
+        one(2, 2, [1], [2], 1)
+        one(3, 2, [2, 2], [2, 1], 2, fill_p=0)
+        one(3, 2, [1, 2], [1, 1], 0)
+        return out
+    thorough = tier == "thorough"
+    k = 0
+    for d in (2, 3):
+        for ba in profiles(2, 3):
+            for bp in profiles(2, 3):
+                k += 1
+                one(2, d, ba, bp, k, w=_prod(ba) * _prod(bp) ** 2 * d ** 4 * 100)
+        ps = profiles(3, 3)
+        for i, ba in enumerate(ps):
+            k += 1
+            one(3, d, ba, ps[(4 * i + 1) % 9], k, fill_p=0, w=2e4 * _prod(ba))
+            if d == 2 or max(ba) <= 2:
+                one(3, d, ba, ps[(7 * i + 5) % 9], k + 1, fill_p=1, w=2e5 * _prod(ba))
+            if max(ba) <= 2 and d == 2:
+                one(3, d, ps[(2 * i + 3) % 9], ba, k + 2, fill=1, fill_p="full", w=8e5)
+        # both fully symbolic at N = 3: <psi|A|psi> has (bond paths of A) x (bond paths of psi)^2 x d^(2N) x 2^(3N) monomials
+        for ba in profiles(3, 2):
+            for bp in profiles(3, 2):
+                if d == 3 and not (thorough and _prod(ba) * _prod(bp) <= 2):
+                    continue
+                if d == 2 and not thorough and _prod(bp) > 2:
+                    continue
+                k += 1
+                one(3, d, ba, bp, k, w=_prod(ba) * _prod(bp) ** 2 * d ** 6 * 512)
+        ps = profiles(4, 3)
+        for i, ba in enumerate(ps):
+            if thorough or i % 3 == 0:
+                k += 1
+                one(4, d, ba, ps[(8 * i + 3) % 27], k, fill=1, fill_p=1, w=1e5 * d ** 3)
+        for i, ba in enumerate(profiles(4, 2)):
+            if d == 2 and (thorough or i % 2 == 0):
+                k += 1
+                one(4, d, ba, ps[(5 * i + 13) % 27], k, fill_p=0, w=4e5)
+    return out
+
+
+NAME_IDX = {2: [[(1, 1)], [(0, 0), (1, 1)], [(1, 0), (0, 1)], [(0, 0), (0, 1), (1, 0), (1, 1)], [(0, 1)], [(1, 0)]],
+            3: [[(1, 1)], [(0, 0), (2, 2)], [(1, 0), (0, 1)], [(2, 0), (0, 2), (1, 1)], [(2, 1)], [(1, 2)], [(0, 2)], [(2, 0), (2, 2)],
+                [(0, 1), (1, 2), (2, 0)], [(a, b) for a in range(3) for b in range(3)]]}
+
+
+def _names(basis, idx_pairs):
+    letter = {LEVEL[ch]: ch for ch in BASES[basis]}
+    return [letter[a] + letter[b] for a, b in idx_pairs]
+
+
+def _partitions_into_ops(N, max_ops=2):
+    """1..max_ops operators on non-empty disjoint target lists"""
+    out = []
+    sites = list(range(N))
+    for r in range(1, N + 1):
+        for tg in itertools.combinations(sites, r):
+            out.append([list(tg)])
+            if max_ops >= 2:
+                rest = [s for s in sites if s not in tg]
+                for r2 in range(1, len(rest) + 1):
+                    for tg2 in itertools.combinations(rest, r2):
+                        if tg < tg2:
+                            out.append([list(tg), list(tg2)])
+    return out
+
+
+def _oprepr_cases(tier, control):
+    out = []
+    thorough = tier == "thorough"
+    plan = [("rg", 2), ("grx", 2)] if control else \
+        [(b, N) for b in ("rg", "01", "gr", "grx", "rgx") for N in (2, 3, 4) if not (len(BASES[b]) == 3 and N == 4 and not thorough)]
+    for basis, N in plan:
+        d = len(BASES[basis])
+        ns = NAME_IDX[d]
+        for pi, part in enumerate(_partitions_into_ops(N)):
+            for ni in range(len(ns)):
+                if not control and not thorough and N >= 3 and (pi + ni) % (3 if N == 3 else 7):
+                    continue
+                if thorough and N == 4 and d == 3 and (pi + ni) % 5:
+                    continue
+                term1 = [[_names(basis, ns[(ni + k) % len(ns)]), tg] for k, tg in enumerate(part)]
+                term2 = [[_names(basis, ns[(ni + 2) % len(ns)]), [N - 1]]]
+                variant = (pi + ni) % 3
+                terms = [term1] if variant == 0 else [term1, term2] if variant == 1 else [term1, [], term2]
+                out.append(dict(kind="oprepr", N=N, basis=basis, terms=terms, target_sets=bool((pi + ni) % 2), _w=d ** (2 * N)))
+    return out
+
+
+def _norm_cases(tier, control):
+    out = []
+    thorough = tier == "thorough"
+    k = 0
+    for d in (2, 3):
+        for N in ((2, 3) if control else (2, 3, 4, 5) if thorough else (2, 3, 4)):
+            for ba in profiles(N, 2 if control else 4 if (thorough and N <= 4) else 3):
+                for oc in range(N):
+                    if canonical_ok(ba, d, oc):
+                        k += 1
+                        out.append(dict(kind="norm", N=N, d=d, basis=_basis(d, k), fill="full", ba=ba, oc=oc, _w=_prod(ba) * d ** N))
+    return out
+
+
+def cases(tier, control=False, seed=0):
+    out = _add_cases(tier, control) + _mps_cases(tier, control, seed) + _mpo_cases(tier, control, seed) + \
+        _oprepr_cases(tier, control) + _norm_cases(tier, control)
+    for N in ((2,) if control else range(2, 7)):
+        for b in BASES:
+            out.append(dict(kind="make", N=N, basis=b, _w=1))
+    out.sort(key=lambda c: c["_w"] if control else -c["_w"])     # heaviest first keeps the pool busy
+    for c in out:
+        del c["_w"]
+    return out
+
+
+def plan_description(tier):
+    cs = cases(tier)
+    by = {}
+    for c in cs:
+        key = c["kind"]
+        e = by.setdefault(key, dict(n=0, N=set(), d=set(), b=0))
+        e["n"] += 1
+        e["N"].add(c["N"])
+        e["d"].add(c.get("d", len(BASES[c["basis"]]) if "basis" in c else 0))
+        e["b"] = max([e["b"]] + list(c.get("ba", [])) + list(c.get("bb", [])) + list(c.get("bp", [])))
+    parts = []
+    for kind in ("add", "mps", "mpo", "oprepr", "make", "norm"):
+        e = by[kind]
+        parts.append(f"{kind}: {e['n']} cases, {min(e['N'])}-{max(e['N'])} sites, physical dim {sorted(e['d'])}"
+                     + (f", inner bond dims 1-{e['b']}" if e["b"] else ""))
+    return "; ".join(parts)
